@@ -74,56 +74,100 @@ def has_empty_regex(x):
     return False
 
 
-def plant_canaries(beh_path, sim_path, out_path):
-    """two corrupted copies of emitted behaviours: the replayer must reject exactly these"""
-    prog = None
-    with open(beh_path) as f:
+def canary_round(ctx, cells_path, sim_path, acl_path):
+    """Canaries are planted on the EXPECTED side of cases that pass on the tree under test: a few candidate cases are
+    replayed twice in a separate harness run, once as emitted and once with one expected value corrupted.  A candidate
+    whose original does not pass (the tree under test differs there - that is reported by the main replay) is not used.
+    An accepted corruption, or no usable candidate, is a *deferred* fault: it never pre-empts real mismatches."""
+    K = 6
+    cands = []          # (kind, original, corrupted)
+    with open(cells_path) as f:
+        n = 0
         for line in f:
             b = json.loads(line)
             last = b["exp"][-1]
-            if last["st"] == "ok" and last["S"]["i1"]["t"] == "INT" and last["S"]["s1"]["t"] == "STR" and len(b["stmts"]) >= 2:
-                prog = b
-                break
-    if prog is None:
-        raise MachineryFault("no behaviour to derive canaries from")
-    c1 = json.loads(json.dumps(prog)); c1["tag"] = "canary-int"
-    c1["exp"][-1]["S"]["i1"]["i"] += 1
-    c2 = json.loads(json.dumps(prog)); c2["tag"] = "canary-notset"
-    s1 = c2["exp"][-1]["S"]["s1"]
-    s1["set"] = not s1["set"]
-    # third canary: the expected *final* value of a random program is corrupted - only the whole-program replay
-    # (the program inside a subroutine frame, variables exported to headers) can notice
-    c3 = None
+            if last["st"] == "ok" and last["S"]["i1"]["t"] == "INT" and last["S"]["s1"]["t"] == "STR" and not has_empty_regex(b["stmts"]):
+                c1 = json.loads(line); c1["exp"][-1]["S"]["i1"]["i"] += 1
+                c2 = json.loads(line); c2["exp"][-1]["S"]["s1"]["set"] = not c2["exp"][-1]["S"]["s1"]["set"]
+                cands += [("expected-integer", b, c1), ("expected-set-flag", b, c2)]
+                n += 1
+                if n >= K:
+                    break
     with open(sim_path) as f:
+        n = 0
         for line in f:
             b = json.loads(line)
-            if has_empty_regex(b["stmts"]):
-                continue        # programs with an empty regular expression run into the known finding
-            if b["exp"][-1]["st"] == "ok" and b.get("fin", {}).get("i1", {}).get("t") == "STR":
-                c3 = b
-                break
-    if c3 is None:
-        raise MachineryFault("no random program to derive the whole-program canary from")
-    c3["tag"] = "canary-fin"
-    c3["fin"]["i1"]["cs"] = c3["fin"]["i1"]["cs"] + ["9"]
-    with open(out_path, "w") as o:
-        o.write(json.dumps(c1) + "\n")
-        o.write(json.dumps(c2) + "\n")
-        o.write(json.dumps(c3) + "\n")
-    return 3
+            if b["exp"][-1]["st"] == "ok" and b.get("fin", {}).get("i1", {}).get("t") == "STR" and not has_empty_regex(b["stmts"]):
+                c3 = json.loads(line); c3["fin"]["i1"]["cs"] = c3["fin"]["i1"]["cs"] + ["9"]
+                cands.append(("expected-final-value(whole-program)", b, c3))
+                n += 1
+                if n >= K:
+                    break
+    inp = os.path.join(ctx.work, "canary_progs.jsonl")
+    with open(inp, "w") as o:
+        for _, orig, bad in cands:
+            o.write(json.dumps(orig) + "\n")
+            o.write(json.dumps(bad) + "\n")
+    out = ctx.harness("vhc07", ["replay", "-prefix", "cn"], stdin_path=inp, out_name="canary_progs_res.jsonl")
+    step, whole = {}, {}
+    for r in ctx.read_results(out):
+        rid = r["id"][2:]
+        if "_whole_" in rid:
+            if not (r.get("class") or {}).get("skipped"):
+                whole.setdefault(int(rid.split("_")[0]), []).append(bool(r.get("mismatch")))
+        else:
+            step[int(rid)] = bool(r.get("mismatch"))
+    verdict = {}
+    for k, (kind, _, _) in enumerate(cands):
+        o, c = 2 * k + 1, 2 * k + 2
+        if kind.startswith("expected-final"):
+            usable = step.get(o) is False and len(whole.get(o, [])) == 2 and not any(whole[o]) and step.get(c) is False
+            rejected = any(whole.get(c, []))
+        else:
+            usable = step.get(o) is False
+            rejected = step.get(c) is True
+        if usable:
+            verdict.setdefault(kind, []).append(rejected)
+    for kind in sorted(set(k for k, _, _ in cands)):
+        v = verdict.get(kind, [])
+        if not v:
+            ctx.defer_fault("canary %s: none of the candidate cases passes on this tree, the comparison could not be exercised" % kind)
+        elif not all(v):
+            ctx.defer_fault("canary %s was accepted by the replayer (comparison is vacuous)" % kind)
+    ctx.notes["canaries"] = {k: "%d/%d rejected" % (sum(v), len(v)) for k, v in verdict.items()}
 
-
-def plant_acl_canary(beh_path, out_path):
-    with open(beh_path) as f:
+    # ACL: same scheme
+    acands = []
+    with open(acl_path) as f:
         for line in f:
             b = json.loads(line)
             if len(b["acl"]) >= 1 and sum(b["amb"].values()) == 0:
-                b["r"]["0"] = 1 - b["r"]["0"]
-                b["canary"] = True
-                with open(out_path, "w") as o:
-                    o.write(json.dumps(b) + "\n")
-                return
-    raise MachineryFault("no ACL behaviour to derive a canary from")
+                bad = json.loads(line)
+                bad["r"]["0"] = 1 - bad["r"]["0"]
+                acands.append((b, bad))
+                if len(acands) >= K:
+                    break
+    ainp = os.path.join(ctx.work, "canary_acl.jsonl")
+    with open(ainp, "w") as o:
+        for orig, bad in acands:
+            o.write(json.dumps(orig) + "\n")
+            o.write(json.dumps(bad) + "\n")
+    aout = ctx.harness("vhc07", ["acl", "-prefix", "ca"], stdin_path=ainp, out_name="canary_acl_res.jsonl")
+    fam = {}
+    for r in ctx.read_results(aout):
+        n, family = r["id"][2:].split("_", 1)
+        if family in ("v4", "v6"):
+            fam.setdefault(int(n), []).append(bool(r.get("mismatch")))
+    av = []
+    for k in range(len(acands)):
+        o, c = 2 * k + 1, 2 * k + 2
+        if fam.get(o) and not any(fam[o]):
+            av.append(bool(fam.get(c)) and all(fam[c]))
+    if not av:
+        ctx.defer_fault("ACL canary: none of the candidate lists passes on this tree, the comparison could not be exercised")
+    elif not all(av):
+        ctx.defer_fault("ACL canary was accepted (comparison is vacuous)")
+    ctx.notes["canaries"]["acl-verdict"] = "%d/%d rejected" % (sum(av), len(av))
 
 
 def run(ctx):
@@ -186,40 +230,19 @@ def run(ctx):
     # ------------------------------------------------------------------ 2. replay of programs
     nsh = min(ctx.workers, 16)
     prog_files = [res["cells"].beh_path, res["shapes"].beh_path] + [res["sim%d" % k].beh_path for k in range(nsim)]
-    can = os.path.join(ctx.work, "canaries.jsonl")
-    plant_canaries(res["cells"].beh_path, res["sim0"].beh_path, can)
-    shards, total = shard_lines(prog_files + [can], nsh, ctx.work, "prog")
+    shards, total = shard_lines(prog_files, nsh, ctx.work, "prog")
     outs = run_sharded(ctx, "vhc07", "replay", shards, "p")
-    canaries_seen = 0
     for o in outs:
         for r in ctx.read_results(o):
             cls = r.get("class") or {}
-            tag = cls.get("tag", "")
-            if tag.startswith("canary"):
-                whole = cls.get("kind") == "whole"
-                if tag == "canary-fin" and not whole:
-                    continue            # the step-wise replay of this one is expected to agree
-                canaries_seen += 1
-                if not r.get("mismatch"):
-                    raise MachineryFault("canary %s was accepted by the replayer (comparison is vacuous)" % tag)
-                continue
             if cls.get("skipped"):
                 continue
             if not r.get("validated"):
                 raise MachineryFault("replayer could not bind a program: %s" % json.dumps(r.get("drift"))[:400])
             ctx.add_result(r)
-    if canaries_seen != 4:
-        raise MachineryFault("expected 4 canary rejections (2 step-wise, 2 whole-program), saw %d" % canaries_seen)
 
     # ------------------------------------------------------------------ 3. replay of ACLs
     acl_files = [res[n].beh_path for n in res if n.startswith("acl")]
-    acan = os.path.join(ctx.work, "acl_canary.jsonl")
-    plant_acl_canary(res["acl"].beh_path, acan)
-    # the canary is run on its own so that it can be told apart
-    co = ctx.harness("vhc07", ["acl", "-prefix", "canary"], stdin_path=acan, out_name="acl_canary_res.jsonl")
-    cres = list(ctx.read_results(co))
-    if not cres or not all(r.get("mismatch") for r in cres):
-        raise MachineryFault("ACL canary was accepted (comparison is vacuous)")
     shards, total = shard_lines(acl_files, nsh, ctx.work, "acl")
     outs = run_sharded(ctx, "vhc07", "acl", shards, "a")
     for o in outs:
@@ -227,3 +250,6 @@ def run(ctx):
             if not r.get("validated"):
                 raise MachineryFault("ACL replayer could not bind a case: %s" % json.dumps(r.get("drift"))[:400])
             ctx.add_result(r)
+
+    # ------------------------------------------------------------------ 4. canaries (never pre-empt the verdict)
+    canary_round(ctx, res["cells"].beh_path, res["sim0"].beh_path, res["acl"].beh_path)
